@@ -965,6 +965,39 @@ fn misc_op(op: &str, a: &[&str]) -> R {
 
 // ------------------------------------------------------------------ Montgomery / limb level
 
+/// an RNG that replays a list of words (0 after the last one) and counts the `next_u64` calls
+struct ReplayRng { words: Vec<u64>, pos: usize, calls: usize }
+impl rand_core::RngCore for ReplayRng {
+    fn next_u64(&mut self) -> u64 {
+        self.calls += 1;
+        let w = if self.pos < self.words.len() { self.words[self.pos] } else { 0 };
+        self.pos += 1;
+        w
+    }
+    fn next_u32(&mut self) -> u32 { self.next_u64() as u32 }
+    fn fill_bytes(&mut self, dest: &mut [u8]) { for b in dest.iter_mut() { *b = self.next_u64() as u8; } }
+    fn try_fill_bytes(&mut self, dest: &mut [u8]) -> Result<(), rand_core::Error> { self.fill_bytes(dest); Ok(()) }
+}
+
+/// `Field::random` of Fq / Fr (trait route and concrete-type route) on a replayed word stream
+fn rnd_op(f: &str, ws: &str) -> R {
+    let words: Vec<u64> = ws.split(',').map(|w| u64::from_str_radix(w, 16).ok()).collect::<Option<Vec<u64>>>()?;
+    let mk = || ReplayRng { words: words.clone(), pos: 0, calls: 0 };
+    match f {
+        "fq" => {
+            let mut r1 = mk(); let x = <Fq as Field>::random(&mut r1);
+            let mut r2 = mk(); let y = Fq::random(&mut r2);
+            both(Some(format!("{} {}", limbs_hex(&x.verif_raw().0), r1.calls)), Some(format!("{} {}", limbs_hex(&y.verif_raw().0), r2.calls)))
+        }
+        "fr" => {
+            let mut r1 = mk(); let x = <Fr as Field>::random(&mut r1);
+            let mut r2 = mk(); let y = Fr::random(&mut r2);
+            both(Some(format!("{} {}", limbs_hex(&x.verif_raw().0), r1.calls)), Some(format!("{} {}", limbs_hex(&y.verif_raw().0), r2.calls)))
+        }
+        _ => None,
+    }
+}
+
 fn mfq_op(op: &str, a: &[&str]) -> R {
     let raw = |s: &str| -> Option<Fq> { Some(unsafe { transmute::fq(repr6(&parse_limbs(s, 6)?)) }) };
     let show = |x: &Fq| limbs_hex(&x.verif_raw().0);
@@ -1189,6 +1222,7 @@ fn run_line(line: &str) -> String {
         }
         "g1" if toks.len() >= 2 => g1::op(toks[1], &toks[2..]),
         "g2" if toks.len() >= 2 => g2::op(toks[1], &toks[2..]),
+        "rnd" if toks.len() == 3 => rnd_op(toks[1], toks[2]),
         "mfq" if toks.len() >= 2 => mfq_op(toks[1], &toks[2..]),
         "lfq" if toks.len() >= 2 => mfq_op(toks[1], &toks[2..]),
         "lfr" if toks.len() >= 2 => mfr_op(toks[1], &toks[2..]),
